@@ -14,6 +14,9 @@ public:
     verif_str& operator=(const verif_str& o) { n = o.n; for (size_t i = 0; i < VERIF_STR_CAP; ++i) c[i] = o.c[i]; return *this; }
     bool operator==(const verif_str& o) const { if (n != o.n) return false; for (size_t i = 0; i < VERIF_STR_CAP; ++i) if (i < n && c[i] != o.c[i]) return false; return true; }
     const char* c_str() const { return c; }
+    const char* data() const { return c; }
+    size_t length() const { return n; }
+    bool operator==(const char* o) const { return *this == verif_str(o); }
     size_t size() const { return n; }
 };
 }
